@@ -31,6 +31,38 @@ use tracing::info;
 const HARD_STATE_FILE_NAME: &str = "hard_state.bin";
 pub(crate) const HARD_STATE_KEY: &[u8] = b"hard_state";
 
+/// Verification hook (compiled only with `--cfg d_engine_verif`; add-only, no behaviour change).
+///
+/// `hit(name)` is called between the file operations of the File log/meta stores so that an
+/// out-of-tree harness can image the data directory at that crash point. Without a registered
+/// callback it does nothing.
+#[cfg(d_engine_verif)]
+pub mod verif_crashpoint {
+    use std::cell::RefCell;
+
+    type Callback = Box<dyn FnMut(&'static str)>;
+
+    thread_local! {
+        static CALLBACK: RefCell<Option<Callback>> = const { RefCell::new(None) };
+    }
+
+    /// Install (or with `None` remove) the crash-point callback of the current thread.
+    pub fn set(cb: Option<Callback>) {
+        CALLBACK.with(|c| *c.borrow_mut() = cb);
+    }
+
+    pub(crate) fn hit(name: &'static str) {
+        CALLBACK.with(|c| {
+            // `try_borrow_mut`: a callback that re-enters the store must not panic the store.
+            if let Ok(mut guard) = c.try_borrow_mut() {
+                if let Some(f) = guard.as_mut() {
+                    f(name)
+                }
+            }
+        });
+    }
+}
+
 /// All mutable state for the log store, protected by a single Mutex.
 ///
 /// Combining entries, file handle, and position index under one lock eliminates
@@ -270,8 +302,12 @@ impl LogStore for FileLogStore {
                 inner.entries.insert(entry.index, entry.clone());
                 inner.index_end_pos.insert(entry.index, end_pos);
                 max_index = max_index.max(entry.index);
+                #[cfg(d_engine_verif)]
+                verif_crashpoint::hit("log:persist:entry");
             }
             inner.file.flush()?;
+            #[cfg(d_engine_verif)]
+            verif_crashpoint::hit("log:persist:flushed");
         }
 
         self.last_index.store(max_index, Ordering::SeqCst);
@@ -308,6 +344,8 @@ impl LogStore for FileLogStore {
 
         // Rewrite file with only kept entries, flush once.
         inner.file.set_len(0)?;
+        #[cfg(d_engine_verif)]
+        verif_crashpoint::hit("log:purge:truncated");
         inner.file.seek(SeekFrom::Start(0))?;
         inner.index_end_pos.clear();
 
@@ -315,9 +353,13 @@ impl LogStore for FileLogStore {
             let enc = entry.encode_to_vec();
             let end_pos = inner.write_encoded(&enc)?;
             inner.index_end_pos.insert(entry.index, end_pos);
+            #[cfg(d_engine_verif)]
+            verif_crashpoint::hit("log:purge:entry");
         }
         inner.file.flush()?;
         inner.file.sync_all()?;
+        #[cfg(d_engine_verif)]
+        verif_crashpoint::hit("log:purge:synced");
 
         inner.entries.retain(|&index, _| index > cutoff_index.index);
 
@@ -333,6 +375,8 @@ impl LogStore for FileLogStore {
         // Compute truncation point from end_pos index — no file read required.
         let truncate_to = inner.end_pos_before(from_index);
         inner.file.set_len(truncate_to)?;
+        #[cfg(d_engine_verif)]
+        verif_crashpoint::hit("log:truncate:truncated");
 
         inner.remove_from_index(from_index);
 
@@ -359,6 +403,8 @@ impl LogStore for FileLogStore {
             // Truncate file to the end of the last kept entry.
             let truncate_to = inner.end_pos_before(from_index);
             inner.file.set_len(truncate_to)?;
+            #[cfg(d_engine_verif)]
+            verif_crashpoint::hit("log:replace:truncated");
 
             // Remove in-memory state for truncated range.
             inner.remove_from_index(from_index);
@@ -368,11 +414,15 @@ impl LogStore for FileLogStore {
                 let end_pos = inner.write_encoded(enc)?;
                 inner.entries.insert(entry.index, entry.clone());
                 inner.index_end_pos.insert(entry.index, end_pos);
+                #[cfg(d_engine_verif)]
+                verif_crashpoint::hit("log:replace:entry");
             }
 
             if !new_entries.is_empty() {
                 inner.file.flush()?;
             }
+            #[cfg(d_engine_verif)]
+            verif_crashpoint::hit("log:replace:done");
 
             inner.entries.keys().next_back().copied().unwrap_or(0)
         };
@@ -390,6 +440,8 @@ impl LogStore for FileLogStore {
         let mut inner = self.inner.lock().unwrap();
         inner.file.flush()?;
         inner.file.sync_all()?;
+        #[cfg(d_engine_verif)]
+        verif_crashpoint::hit("log:flush:synced");
         Ok(())
     }
 
@@ -400,6 +452,8 @@ impl LogStore for FileLogStore {
     async fn reset(&self) -> Result<(), Error> {
         let mut inner = self.inner.lock().unwrap();
         inner.file.set_len(0)?;
+        #[cfg(d_engine_verif)]
+        verif_crashpoint::hit("log:reset:truncated");
         inner.file.seek(SeekFrom::Start(0))?;
         inner.file.flush()?;
         inner.entries.clear();
@@ -471,8 +525,14 @@ impl FileMetaStore {
         if key == HARD_STATE_KEY {
             let hard_state_path = self.data_dir.join(HARD_STATE_FILE_NAME);
             let mut file = File::create(hard_state_path)?;
+            #[cfg(d_engine_verif)]
+            verif_crashpoint::hit("meta:created");
             file.write_all(value)?;
+            #[cfg(d_engine_verif)]
+            verif_crashpoint::hit("meta:written");
             file.flush()?;
+            #[cfg(d_engine_verif)]
+            verif_crashpoint::hit("meta:flushed");
         }
 
         Ok(())
